@@ -110,6 +110,14 @@ func (c Case) coq() string {
 // or look alike after percent-decoding
 var topics = []string{"a", "a/b", "a%2Fb", "ab", "a-", "a/b/c", "a.b", "A", "a_", "b", "a/b-", "a+b", "a,b", "a%25"}
 
+// session ids that continue with a character OUTSIDE the relay's topic pattern after a valid prefix:
+// the access API issues codes for them, the relay's scanner would stop at the odd character. They
+// are always used together with the bare prefix topic, populated by its own readers and writers.
+var continued = map[string][]string{
+	"a":   {"a:1", "a:2", "a~x", "a@b", "a b", "a\u00e9", "a=b", "a;b"},
+	"a/b": {"a/b:1", "a/b~", "a/b c"},
+}
+
 type slot struct {
 	tt   string
 	name uint64 // 0 = not connected
@@ -157,6 +165,23 @@ func genHistory(r *lib.Rng) []Op {
 	chosen := []string{}
 	if r.Chance(3, 4) {
 		chosen = append(chosen, []string{"a", "a/b"}[r.Intn(2)])
+		if r.Chance(1, 2) {
+			// the bare prefix plus one to three of its out-of-pattern continuations
+			fam := continued[chosen[0]]
+			for k := r.Range(1, 3); k > 0; k-- {
+				t := fam[r.Intn(len(fam))]
+				dup := false
+				for _, c := range chosen {
+					dup = dup || c == t
+				}
+				if !dup {
+					chosen = append(chosen, t)
+				}
+			}
+			if len(chosen) > nT {
+				nT = len(chosen)
+			}
+		}
 	}
 	for _, i := range perm {
 		if len(chosen) >= nT {
